@@ -9,6 +9,7 @@ mod pure_bpb;
 mod pure_format;
 mod pure_fat;
 mod pure_cursor;
+mod pure_io;
 mod dev;
 mod clock;
 mod script;
@@ -76,6 +77,7 @@ fn main() {
         ("pure", "format") => pure_format::run(tier, seed, &mut out),
         ("pure", "fat") => pure_fat::run(tier, seed, &mut out),
         ("pure", "cursor") => pure_cursor::run(tier, seed, &mut out),
+        ("pure", "io") => pure_io::run(tier, seed, &mut out),
         _ => usage(),
     }
     out.flush().unwrap();
